@@ -1,6 +1,7 @@
 import ScVerif.C13.InvokeLemmas
 import ScVerif.C13.InvokeSrv
 import ScVerif.C13.InvokeFrozen
+import ScVerif.C13.InvokeInv
 import ScVerif.C13.PropsSelect
 /-!
 # C13 — a unary call (`wrapper.Invoke`) is released by its caller's context
@@ -121,9 +122,10 @@ theorem C13_direct_call_same_code_when_handler_returns (c : Chans) (a : Abort) (
 
 /-- **`collectMetadata` never blocks.**  Once Invoke's RecvMsg has returned — with the reply, the handler's status or
 the caller's abort — the `Header()` read for the `grpc.Header` call option has a ready case in every later instant:
-a handler offers its reply only after the header latch is closed (`sendHeaderIfNeeded`), a terminal result means the
-stream's context has ended, and neither is ever undone. -/
-theorem C13_invoke_collect_never_blocks (c c' : Chans) (r : Res) (hinv : OfferAfterHeader c)
+a handler offers its reply only after `sendHeaderIfNeeded`, which closes the header latch unless the stream's context
+has ended (`OfferedAfterFlush`: established by `serverStream.SendMsg` itself, C13_handler_offers_only_after_flush), a
+terminal result means the stream's context has ended, and neither is ever undone. -/
+theorem C13_invoke_collect_never_blocks (c c' : Chans) (r : Res) (hinv : OfferedAfterFlush c)
     (hl : Later c c') (hr : IPc.collect r ∈ step .recv c) : step (.collect r) c' ≠ [] := by
   have : c.w.headerC = true ∨ ctxDone c.w = true := by
     simp only [step, List.mem_map] at hr
@@ -135,11 +137,26 @@ theorem C13_invoke_collect_never_blocks (c c' : Chans) (r : Res) (hinv : OfferAf
       | none =>
         cases ho : c.offer with
         | none => simp [recvResults, hd, hcl, ho] at hr'
-        | some m => exact hinv (by simp [ho])
+        | some m => exact (hinv (by simp [ho])).resolve_right (by simp [hd])
     · right; rfl
   rcases this with h | h
   · simp [step, headerResults, hl.1 h]
   · simp [step, headerResults, hl.2 h]
+
+/-- The hypothesis of C13_invoke_collect_never_blocks is what the code of `serverStream.SendMsg` establishes: in every
+state a handler can be offering a message in (`sendHeaderIfNeeded` has run, its error ignored), the header latch is
+closed or the stream's context has ended — since 1e9d1bd `SendHeader` refuses on an ended context, so the latch may
+legitimately still be open there, and Header() then takes its context case. -/
+theorem C13_handler_offers_only_after_flush (w : State) (offer : Option Nat) (tk : Bool) :
+    OfferedAfterFlush ⟨sendHeaderIfNeeded w, offer, tk⟩ :=
+  offeredAfterFlush_of_sendMsg w offer tk
+
+/-- … and its other hypothesis (`Later`: the stream only moves forward) holds for everything that can happen to the
+shared state: no SetHeader / SendHeader / SetTrailer / flush of the handler half, no end of the caller's context and
+no `Close` re-opens the header latch or revives an ended context (any channel activity alongside). -/
+theorem C13_stream_only_moves_forward (w : State) (m : Move) (o o' : Option Nat) (t t' : Bool) :
+    Later ⟨w, o, t⟩ ⟨m.apply w, o', t'⟩ :=
+  Move.forward w m o o' t t'
 
 /-- **A handler that has returned an error: the caller gets exactly that status**, along every sequence of instants
 after the return with the caller's context live — whether the request was still taken or not. -/
@@ -191,10 +208,10 @@ theorem C13_invoke_gives_handler_status (err : Fin) (cs : List Chans)
 /-- **The reply**: the handler is offering its reply `m` (context live, not returned): Invoke's RecvMsg takes it, and
 `collectMetadata` then reads the sent header and the trailer of that instant. -/
 theorem C13_invoke_reply (c : Chans) (m : Nat) (hc : c.w.closed = none) (ha : c.w.ctxErr = none)
-    (ho : c.offer = some m) (hinv : OfferAfterHeader c) :
+    (ho : c.offer = some m) (hinv : OfferedAfterFlush c) :
     step .recv c = [.collect (.msg m)] ∧
     step (.collect (.msg m)) c = [.done (.full (.msg m) c.w.header c.w.trailer)] := by
-  have hh : c.w.headerC = true := hinv (by simp [ho])
+  have hh : c.w.headerC = true := (hinv (by simp [ho])).resolve_right (by simp [ctxDone, hc, ha])
   simp [step, recvResults, headerResults, ctxDone, hc, ha, ho, hh]
 
 /-- Non-vacuity: the instants of `C13_invoke_released_as_cancelled` exist and Invoke does return along them
